@@ -105,11 +105,14 @@ print(json.dumps({'ok': got == exp, 'got_len': len(got), 'exp_len': len(exp)}))
 '''
 
 
-def real_case(ctx, rng):
+def real_case(ctx, rng, many=None):
     rep = ctx.report
     n = rng.choice([1, 2, 3, 4])
     m = rng.choice([1, 2, 7, 150, 1000] if ctx.quick else [1, 2, 7, 150, 1000, 3000])
     pat = rng.choice(['all', 'none', 'some', 'first-late'])
+    if many is not None:
+        # "every number of workers": far more workers than rows, and more than the machine has cores
+        n, m, pat = many, 9, 'some'
     case = {'real-multiprocess': True, 'workers': n, 'rows': m, 'pattern': pat}
     script = os.path.join(ctx.scratch, 'real.py')
     with open(script, 'w') as f:
@@ -143,6 +146,8 @@ def run(ctx):
         exhaustive_small(ctx, pending)
     for _ in range(ctx.n(6, 40)):
         real_case(ctx, rng)
+    for many in (33, 70):
+        real_case(ctx, rng, many=many)
     if ctx.model.available():
         outs = ctx.model.run([op for _, op, _, _, _ in pending])
         for (case, op, real, prelude, first), mo in zip(pending, outs):
